@@ -124,9 +124,17 @@ func (x *Exec) BuildReplay(inst Instance, m *Model, id string) *ReplayJob {
 	}()
 	for key, vs := range j.Inputs {
 		if key == "fastrand" || strings.HasPrefix(key, "fastrand@") {
+			// makeSeed: draw until non-zero (high half), then one more draw (low half)
 			var seeds []uint64
-			for i := 0; i+1 < len(vs); i += 2 {
+			for i := 0; i < len(vs); {
+				for i < len(vs) && vs[i] == 0 {
+					i++
+				}
+				if i+1 >= len(vs) {
+					break
+				}
 				seeds = append(seeds, vs[i]<<32|vs[i+1])
+				i += 2
 			}
 			derived["makeseed"+strings.TrimPrefix(key, "fastrand")] = seeds
 		}
@@ -136,6 +144,9 @@ func (x *Exec) BuildReplay(inst Instance, m *Model, id string) *ReplayJob {
 	}
 	for name, fd := range x.U.Funs {
 		for _, app := range fd.Apps {
+			if m.Defined != nil && !m.Defined[app.ID] {
+				continue // not constrained by the query: any value will do natively
+			}
 			hv := m.Eval(app)
 			switch {
 			case name == "hashstr":
